@@ -47,6 +47,30 @@ func init() {
 		QuickRuns: 1500, QuickSecs: 60, ThorRuns: 30000, ThorSecs: 900, Batch: 25,
 	})
 	Register(&Check{
+		ID: "C05", Engine: "netsim",
+		Real:      []string{"mpc/bls TBLS.KeyGen/OnMsg (honest parties and the culprit's own backend)", "mpc/ps TPS.KeyGen/OnMsg", "threshold.Scheme", "rbc.Receiver", "disc.Member", "disc.SilentSynchronizer", "msg.Box", "bls.Verifier / ps.Prover / ps.Verifier for the post-run oracle"},
+		Stub:      append([]string{"the culprit's NIC (adversary rewriting its DKG messages per destination)", "transparent recording proxy around honest backends (disclosure-order monitor)"}, e1Stub...),
+		Rule:      "run i walks the catalogue systematically: deviation = catalogue[i mod 12] (none, off-polynomial shares, reveal != commitment, consistently committed off-polynomial key, equivocated commit / reveal, malformed (8 mutations incl. wrong arity), duplicate, early reveal, second commit, late share, withhold) x victim set = the (i div 12)-th non-empty subset of the honest parties; n, t (incl. t = n), culprit, backend (BLS/PS), mode and schedule are drawn; distinct = distinct (deviation, culprit, victims, schedule fingerprint); non-trivial = the deviation actually altered, added or removed a message (or the control case 'none')",
+		Assume:    []string{"links are reliable FIFO", "one deviating participant per run; it never spoofs an honest source"},
+		QuickRuns: 1500, QuickSecs: 90, ThorRuns: 30000, ThorSecs: 900, Batch: 20,
+	})
+	Register(&Check{
+		ID: "C07", Engine: "netsim",
+		Real:      []string{"disc.Member (Synchronize, HandleMessage, tag/view encoding) - one instance per honest member, several topics concurrently"},
+		Stub:      []string{"transport (simulator-owned per-link FIFO queues)", "logger (counting stub)", "Byzantine configured members (harness code fabricating membership/query/response messages with valid and foreign tags and lying views)"},
+		Rule:      "one case = one seeded universe of 3..6 (thorough 8) members with ids over the 16-bit range, 1..3 topics with drawn invoker subsets and expected counts (exact, one short, one over, room for Byzantine members), 0..n-2 Byzantine members injecting up to 25 fabricated messages, one delivery schedule; distinct = distinct schedule fingerprint; non-trivial = at least one honest completion and (an injection fired, or several topics ran concurrently, or an id >= 256 took part)",
+		Assume:    []string{"links are reliable FIFO", "Byzantine members are configured members (they can compute every tag, as the HMAC key is the topic)", "the transport authenticates the source"},
+		QuickRuns: 4000, QuickSecs: 50, ThorRuns: 80000, ThorSecs: 900,
+	})
+	Register(&Check{
+		ID: "C08", Engine: "netsim",
+		Real:      []string{"threshold.Scheme via LoudScheme/SilentScheme", "disc.Member", "disc.SilentSynchronizer", "rbc.Receiver", "msg.Box", "mpc/ps TPS DKG + Sign, Prover (Blind/UnBlind/ProveKnowledgeOfSignature), Verifier (real pairing crypto)"},
+		Stub:      e1Stub,
+		Rule:      "one case = one seeded run (n, t, message length L, mode, schedule) of a full PS DKG through the real stack, followed by the documented flow for 4 message vectors (mixed empty/equal/1-byte/long/random entries, all-equal, all-empty) and every signer subset of size >= t; the schedule dimension concerns the DKG only, the rest is a seeded input sweep; distinct = distinct schedule fingerprint; non-trivial = at least one cross-link delivery-order inversion during the DKG",
+		Assume:    []string{"links are reliable FIFO", "party ids 1..n (the documented usage: the prover uses the party id as evaluation point)"},
+		QuickRuns: 1200, QuickSecs: 75, ThorRuns: 20000, ThorSecs: 900, Batch: 12,
+	})
+	Register(&Check{
 		ID: "C11", Engine: "netsim", Level: "fault_enumeration",
 		Real:      []string{"threshold.Scheme (KeyGen/Sign entry paths, result/ctx select)", "disc.Member", "disc.SilentSynchronizer", "rbc.Receiver", "msg.Box", "mpc/bls TBLS.KeyGen", "mpc/ps TPS.KeyGen"},
 		Stub:      append([]string{"MPC backend (scripted, lock-step rounds) in part of the runs"}, e1Stub...),
